@@ -5,6 +5,31 @@ VERIF = os.path.dirname(os.path.dirname(os.path.abspath(__file__)))
 ALL = [f"C{i:02d}" for i in range(1, 21)]
 
 CLAIMS = {
+ "C03": dict(
+    category="proof",
+    text="Lean theorems over the type-consistency judgement Wt.errs (Model/Wt.lean: every node's annotation agrees with its children, "
+         "with the binder of a variable, with the schemes of the program's functions / builtins / externs (references are instances, "
+         "matched by matchTy), with enum/struct definitions instantiated at the annotation's type arguments, with trait method "
+         "signatures, operators and branch types) and over the model of mono.rs: subst_preserves_wt (for every expression, substitution "
+         "and environment with closed definitions: a type-consistent expression stays type-consistent when a type substitution is applied "
+         "to all its annotations and to its environment), getTy_subst, scheme_instance_stable, subst_closed (a closed covering "
+         "substitution leaves no TParam), collapse_noTApp (phase 2 of mono returns application-free types for known generic heads, for "
+         "every type constructor the Rust descends into), collapse_preserves. The property itself is decided on the implementation's own "
+         "outputs: Wt.errs and the closedness predicates are evaluated on every REAL Core/Mono/Lift/ANF dump of every accepted corpus and "
+         "generated program, each with the signature environment dumped from the real genv/monoenv/liftenv (annotations the dumps drop are "
+         "cross-checked in the harness), and an ill-typed stream (one type error of 11 kinds injected at one forced position of a "
+         "well-typed generated program, plus 32 hand-written programs around wildcard array lengths, fields, arities, arguments) must be "
+         "rejected by the real compiler in the typer stage.",
+    design_ref="§5 C03, §C03 — as built",
+    note="Proved: the theorems above about Wt / the mono model. Validated only: that the real stage dumps satisfy the judgement (oracle on "
+         "every accepted program of the run, not a theorem about the typer), that ill-typed programs are rejected (sampled by injection). "
+         "Not done: matchc/anf/lift preservation theorems and soundness of Sem w.r.t. wt; the typer's inference (3 300 lines) is not "
+         "modelled. Trusted: Lean kernel, our reading of type consistency in Wt.errs, harness dumps of the environments, the generator's "
+         "own typing. Fixed: a value coerced to dyn Trait twice inside a call argument. Known findings: after lambda lifting closures are "
+         "structs while the positions they flow through keep function types (Lift/ANF not type-consistent); phantom type parameters "
+         "survive mono (shared with C07).",
+    technique="Lean 4 proof (structural induction over the nested IR and over types) + executable judgement run on the real stage "
+              "dumps + type-error injection against the real compiler"),
  "C05": dict(
     category="proof",
     text="Lean theorems over a model of resolve_expr/resolve_pat: the state-threading resolver refines the environment-passing "
@@ -16,6 +41,39 @@ CLAIMS = {
     note="Trusted: Lean kernel (axioms printed in evidence), harness AST→scope-tree dump and HIR walk, the generator's coverage of scope shapes. "
          "The typer's own scoping (LocalTypeEnv) is exercised only through the acceptance oracle.",
     technique="Lean 4 proof (structural induction over the nested AST) + differential correspondence with the Rust resolver"),
+ "C07": dict(
+    category="proof",
+    text="Lean theorems over a model of mono.rs (Model/Mono.lean: subst_ty, unify, SubstKey, spec_name_for via the C19 name model, "
+         "ensure_instance, mono_expr incl. ETraitCall resolution and generic functions used as values, the work-list loop, "
+         "TypeMono::collapse_type_apps/ensure_instance, rewrite_expr_types). Proved for every program, substitution and state: "
+         "unify_sound / unify_binds (a successful unify instantiates the template to the actual type, only extends the substitution and "
+         "binds every parameter of the template; all type constructors the Rust handles), subst_closed, worklist_bijection / "
+         "instances_unique (instance keys pairwise distinct, queued = keys, emitted ++ pending names = instance names in order at every "
+         "iteration; on return one emitted function per (function, SubstKey) and nothing pending), monoExpr_is_pure (the emitted expression "
+         "and the requests do not depend on the instance table) and instance_name_of_key, monoExpr_no_param / no_residue_partial (every "
+         "emitted function is the specialisation of a program function at a substitution with parameter-free values, and is parameter-free "
+         "whenever the substitution covers the function; call_covers: it does at a saturated call), mono_preserves_partial / "
+         "instance_behaves_as_generic / mono_preserves_run_partial (under Sem, for every fuel, the specialised program computes exactly what "
+         "the generic one computes - first-order fragment with direct calls of builtins, monomorphic and generic functions), "
+         "traitcall_commutes / traitcall_resolution (the statically resolved trait_impl#Tr#Ty#m is the function dynamic dispatch on the "
+         "runtime value selects), mono_terminates_partial / mono_terminates_of_closed_list (finite instance universe => the work list "
+         "empties within |universe| iterations) and polyrec_no_finite_universe (no such universe exists for polymorphic recursion). "
+         "Tied to the Rust by a correspondence run: the model on the REAL Core dump and genv type definitions must print the REAL Mono dump "
+         "(functions in order, signatures, bodies, mono_enums/mono_structs/mono_funcs), panic exactly where the real pass panics and run out "
+         "of fuel exactly where the real pass does not return (child process with watchdog). Independent oracles on the real outputs: real "
+         "Core vs real Mono under Sem, closedness (no TParam/TApp/TVar/ETraitCall) of the real Mono/Lift/ANF dumps, pairwise distinct "
+         "function names, no reference to an unspecialised generic function, no panic, termination watchdog.",
+    design_ref="§5 C07, §C07 — as built",
+    note="Proved: the theorems above about the Lean model. _partial: no_residue assumes the instance substitution covers the function (false "
+         "for a type parameter that occurs only in a body - known finding); mono_preserves is proved for the closure-free fragment with "
+         "direct calls and for phase 1 (specialisation), the link from `mono`'s own output to its hypotheses is shown by evaluation on an "
+         "excerpt, phase 2 (type instances) and closures/dyn/fn values are validated by the Sem oracle only; termination assumes a finite "
+         "instance universe. Validated only: model = Rust (differential), instance-name injectivity (owned by C19). Trusted: Lean kernel, "
+         "harness dumps (dump.rs, c07.rs), DecSyntax/EncSyntax, Sem for the behaviour oracle, the generator's coverage. "
+         "Fixed: unify lacked Vec/dyn, collapse_type_apps skipped Vec, generic functions used as values were not specialised. "
+         "Known findings: polymorphic recursion never terminates; a type parameter that occurs only in a function body survives mono.",
+    technique="Lean 4 proof (structural induction over the nested IR, work-list invariants, fuel-indexed simulation under Sem) + "
+              "differential correspondence with mono::mono + independent oracles on the real stage dumps"),
  "C09": dict(
     category="proof",
     text="Lean theorems over Model/Anf.lean, a model of anf.rs (anf / anf_imm / anf_list / compile_match_arms_to_anf / anf_file in the same "
